@@ -261,8 +261,9 @@ def build_cf(case):
         a, b, c, d = o["clean"]
         vp["left_offset"] = int(a * vp["frame_width"] / 2)
         vp["top_offset"] = int(b * vp["frame_height"] / 2)
-        vp["clean_width"] = max(1, int(c * (vp["frame_width"] - vp["left_offset"])))
-        vp["clean_height"] = max(1, int(d * (vp["frame_height"] - vp["top_offset"])))
+        # (draws below 0.04 give an empty clean area: zero width or height is allowed by 11.4.8 and by the codec-features reader)
+        vp["clean_width"] = 0 if c < 0.04 else max(1, int(c * (vp["frame_width"] - vp["left_offset"])))
+        vp["clean_height"] = 0 if d < 0.04 else max(1, int(d * (vp["frame_height"] - vp["top_offset"])))
     if "fr" in o:
         vp["frame_rate_numer"], vp["frame_rate_denom"] = o["fr"]
     if "par" in o:
